@@ -173,13 +173,16 @@ def rcb_balanced_statement : Prop :=
     (∀ v ∈ verdicts wt pts ws t, v.1 = .tolerance ∨ v.2 = true) →
     balanced wt pts ws t = true
 
-/-- Non-vacuity of the premises: keys 0, 10, 20, unit weights, tolerance 0 – the box
-satisfies `Jinv`, the search leaves through the plateau exit with the resolved interval
-`[10, 15)`, 2 of 3 on the low side. -/
-example : checkSplit tolZero 0 [⟨0, 1, [0]⟩, ⟨1, 1, [10]⟩, ⟨2, 1, [20]⟩] 100 0 20
-    (fun out => out.exit == .plateau && resolvedB [⟨0, 1, [0]⟩, ⟨1, 1, [10]⟩, ⟨2, 1, [20]⟩] 0
-      out.lastMin out.lastMax out.maxMoved && out.lastMin == 10 && out.lastMax == 15 &&
-      out.maxMoved && sumW out.left == 2) = true := by decide +kernel
+/-- Non-vacuity of the premises: keys 0,10,20,30,40, weights 1,1,5,1,1, tolerance 0 – the
+box satisfies `Jinv`, the search leaves through the plateau exit with the resolved interval
+`[20, 30)` and 7 of 9 on the low side (the heavy point is the weighted median). -/
+example : checkSplit tolZero 0
+    [⟨0, 1, [0]⟩, ⟨1, 1, [10]⟩, ⟨2, 5, [20]⟩, ⟨3, 1, [30]⟩, ⟨4, 1, [40]⟩] 100 0 40
+    (fun out => out.exit == .plateau &&
+      resolvedB [⟨0, 1, [0]⟩, ⟨1, 1, [10]⟩, ⟨2, 5, [20]⟩, ⟨3, 1, [30]⟩, ⟨4, 1, [40]⟩] 0
+        out.lastMin out.lastMax out.maxMoved &&
+      out.lastMin == 20 && out.lastMax == 30 && out.maxMoved && sumW out.left == 7) = true := by
+  decide +kernel
 
 /-- Non-vacuity of the positive side: an 8-point input all of whose bisections are
 balanced (all exits through the tolerance test). -/
